@@ -488,5 +488,34 @@ func runC19(r *Rng, tier string, n int) {
 			}
 		}
 	}
+	// (8) what the helpers return stays what it was: results kept across later calls (in a slice, as map
+	// keys) are compared at the end with private copies made when they were returned
+	{
+		inputs := []string{"WWW.Example.ORG", "MAIL.Other.NET.", "x.Y.z.", "UPPER.", "lower.", "Mixed.Case.Example.", "A.B.C.D.E.F.example.", "K\\.Esc.Example.", "\\065BC.example."}
+		type kept struct {
+			what string
+			got  string
+			copy []byte
+		}
+		var ks []kept
+		keep := func(what, got string) { ks = append(ks, kept{what, got, append([]byte(nil), got...)}) }
+		for round := 0; round < 3; round++ {
+			for _, in := range inputs {
+				keep("CanonicalName("+in+")", dns.CanonicalName(in))
+				keep("Fqdn("+in+")", dns.Fqdn(in))
+				keep("AddOrigin("+in+")", dnsutil.AddOrigin(in, "Origin.Example."))
+				keep("TrimDomainName("+in+")", dnsutil.TrimDomainName(in+".origin.example.", "Origin.Example."))
+				for _, l := range dns.SplitDomainName(in) {
+					keep("SplitDomainName("+in+")", l)
+				}
+			}
+		}
+		c19checked += len(ks)
+		for _, k := range ks {
+			if k.got != string(k.copy) {
+				Viol("C19/result-changed-after-return", k.what+" returned "+Hs(string(k.copy))+" but the returned string reads "+Hs(k.got)+" after later calls", map[string]string{"call": k.what})
+			}
+		}
+	}
 	Stat(map[string]int{"names_checked": c19checked, "pairs_checked": c19pairs, "enumerated_label_lists": cnt, "enumerated_strings": sc, "max_octets": maxOct})
 }
